@@ -704,6 +704,7 @@ class FnVerifier:
         for i, a in enumerate(args):
             env["a%d" % i] = a
         env.update(kwargs)
+        env["nargs"] = mk_int(len(args))
         if recv is not None:
             env["recv"] = recv
         if ext.allowed_kwargs is not None and not R.pure:
